@@ -163,11 +163,12 @@ def make_font(name, with_dotted_circle, with_space, vs_glyphs=True, uvs_bases=No
     rec = {"cmap": cmap}
     if uvs_bases:
         uvs = []
+        # non-default mappings only: the glyph of a sequence is recovered as (base, selector) whatever the buffer order
+        # was when the pair met (a forced direction reverses the text by graphemes first); default entries (the base's
+        # own glyph stands for the pair, the selector is not recoverable) are exercised by the norm-run streams
         for bi, b in enumerate(uvs_bases):
             for vi, v in enumerate(VS_POOL):
-                if (bi + vi) % 3 == 0:
-                    uvs.append([b, v, None]); default_pairs.add((b, v))
-                elif (bi + vi) % 3 == 1:
+                if (bi + vi) % 3 != 2:
                     uvs.append([b, v, ng]); inv[ng] = (b, v); ng += 1
         wide = any(cp > 0xFFFF for cp in cmap)
         rec = {"cmap_subtables": [{"platform": 0, "encoding": 5, "format": 14, "uvs": uvs},
@@ -326,8 +327,27 @@ def check_case(text, out, inv, flags, has_dc, removed_ok, rtl=False, hidden=Fals
                     sum(1 for i in range(len(text) - 1) if (text[i], text[i + 1]) in default_pairs and
                         (HIDDEN_DI if hidden else text[i + 1]) == x) < \
                     full_decomp(want_of(text), rtl).count(x)
-                return {"kind": "character lost or moved out of its cluster", "cluster": c, "missing": name,
-                        "vanished": vanished, "cluster_input": [hex(v) for v in parts[c]], "cluster_output": show}
+                d = {"kind": "character lost or moved out of its cluster", "cluster": c, "missing": name,
+                     "vanished": vanished, "cluster_input": [hex(v) for v in parts[c]], "cluster_output": show}
+                # attribution of one upstream-inherited behaviour: the font has a variation-sequence glyph for
+                # (base, selector) of this cluster, the pair became that one glyph (replace_glyphs(2, 1): the record
+                # keeps the base's code point), and the recomposition round then composed the base with a following
+                # mark into a character the font maps: the composite's nominal glyph replaces the sequence glyph, the
+                # selector is gone.  Signature: a selector is missing, the cluster holds such a pair, and its output
+                # holds a composite of that base that the input does not.
+                sel_missing = (x == HIDDEN_DI) or (x >= 0 and is_vs(x))
+                if vanished and sel_missing:
+                    pairs = {v for v in inv.values() if isinstance(v, tuple)}
+                    for b in parts[c]:
+                        if not any((b, v) in pairs for v in parts[c] if is_vs(v)):
+                            continue
+                        nb = unicodedata.normalize("NFD", chr(b))
+                        for y in got:
+                            if isinstance(y, int) and y >= 0 and y not in parts[c]:
+                                ny = unicodedata.normalize("NFD", chr(y))
+                                if len(ny) > len(nb) and ny.startswith(nb):
+                                    d["sequence_base_recomposed"] = [hex(b), hex(y)]
+                return d
         n_split = sum(1 for x in parts[c] if x in KHMER_SPLIT)
         for x in extra:
             if x == DOTTED_CIRCLE and not (flags & 0x10):
@@ -442,6 +462,7 @@ def conservation_search(ctx, shim, r, per_script, scripts=None):
                     # F1 / F4 are cluster SPLITS: a character ends up in a neighbouring cluster.  A character that is
                     # missing from the whole output is a different thing and never matches them.
                     cls = ("syllabic" if name in SYLLABIC else "other") + (
+                        ":variation-sequence-recomposed" if d.get("sequence_base_recomposed") else
                         ":character-vanished" if d.get("vanished") else
                         ":forced-direction" if forced else ":default-ignorable-in-text" if joiner else
                         ":variation-selector-in-text" if sel else ":native-direction")
